@@ -140,7 +140,19 @@ func TestC12_Patches(t *testing.T) {
 					// an ietf-json-patch that validates but does not apply (RFC 6902: missing target / failing test)
 					p = map[string]interface{}{"action": "ietf-json-patch", "patches": []interface{}{
 						map[string]interface{}{"op": "add", "path": "/ok" + itoa(i), "value": "v"},
+						map[string]interface{}{"op": "add", "path": "/arr" + itoa(i), "value": []interface{}{"a", "b"}},
 						rapid.SampledFrom([]interface{}{
+							// locations in an existing array that do not exist
+							map[string]interface{}{"op": "replace", "path": "/arr" + itoa(i) + "/-1", "value": "x"},
+							map[string]interface{}{"op": "test", "path": "/arr" + itoa(i) + "/-1", "value": "b"},
+							map[string]interface{}{"op": "remove", "path": "/arr" + itoa(i) + "/-1"},
+							map[string]interface{}{"op": "replace", "path": "/arr" + itoa(i) + "/2", "value": "x"},
+							map[string]interface{}{"op": "test", "path": "/arr" + itoa(i) + "/-", "value": "b"},
+							map[string]interface{}{"op": "remove", "path": "/arr" + itoa(i) + "/5"},
+							map[string]interface{}{"op": "add", "path": "/arr" + itoa(i) + "/7", "value": "x"},
+							map[string]interface{}{"op": "move", "from": "/arr" + itoa(i) + "/-1", "path": "/x"},
+							map[string]interface{}{"op": "copy", "from": "/arr" + itoa(i) + "/x", "path": "/x"},
+							map[string]interface{}{"op": "replace", "path": "/arr" + itoa(i) + "/99999999999999999999", "value": "x"},
 							map[string]interface{}{"op": "remove", "path": "/missing/member"},
 							map[string]interface{}{"op": "test", "path": "/ok" + itoa(i), "value": "other"},
 							map[string]interface{}{"op": "replace", "path": "/nothere/x", "value": 1.0},
